@@ -33,7 +33,7 @@ ASSUMPTIONS = ["survivor set computed from the recipe by the comprehension in th
                "graphs are built by hand (AttackGraphNode + AttackGraph.add_node, mirrored edges, add_attacker)",
                "wf_graph = clauses W1..W5 of DESIGN.md section 3.1, membership by identity"]
 BUDGET_S = {"quick": 100, "thorough": 1500}
-CHUNK = 2000
+CHUNK = 500
 
 OA = [(t, v, n) for t in ("or", "and") for (v, n) in ((True, True), (False, True), (True, False), (False, False))]
 VARS3 = OA + [("defense", True, True), ("defense", False, False)]
